@@ -193,6 +193,7 @@ def run(rep, tier, seed):
     from contracts.c15_sliced import all_contracts
     cs, table = all_contracts(tier)
     run_contracts(rep, cs, table, tier=tier, replayers=[(r"sliced_wasserstein", _replay_search)])
+    rep.assume("D28 element types: allocations with dtype=x.dtype / full_like / empty_like / piecewise keep the integer type of an integer-typed argument (integer-typed variants of the contracts)")
     rep.assume("D12 sorted() returns the non-decreasing rearrangement (functional in its input); D18 cityblock = sum |u_k - v_k|",
                "A6: cos(pi/4)=sin(pi/4)=h with h>0, h^2=1/2; sqrt(2)=2h; other cos/sin values uninterpreted; float32 direction vectors are reals",
                "L: sorted matching is the 1-D optimal transport; metric laws and <= 2 W1 (sampled only)")
